@@ -151,7 +151,7 @@ def gen_cases(rng, tier):
                         if rng.random() < 0.8:
                             ham['entries'] = _sso_filter(ham['entries'], norb)
                             if rank >= 2:
-                                ham['entries'] = pair_symmetrise(_drop_repeated(ham['entries']))
+                                ham['entries'] = pair_symmetrise(ham['entries'])
                     if cls == 'sparse' and mode == 'ns':
                         ham['entries'] = [e for e in ham['entries'] if _sz_conserving(e[0])] or \
                             [[[[0, 1], [0, 0]], 2, 1]]
@@ -400,8 +400,7 @@ def in_spinorb_single_sector_class(case):
     permutation of its (creator, annihilator) index pairs"""
     if case['mode'] != 'ns' or case['ham']['cls'] not in ('gso', 'general', 'sso'):
         return False
-    return has_exchange_block(case) or not is_pair_symmetric(case['ham']['entries']) or \
-        has_repeated_index_rank3(case)
+    return has_exchange_block(case) or not is_pair_symmetric(case['ham']['entries'])
 
 
 def has_repeated_index_rank3(case):
